@@ -57,6 +57,8 @@ def main():
         except OSError:
             pass                          # already a session / group leader (the harness starts each case in its own session)
         hang_flag = tempfile.mktemp(prefix='vp-eq-hang-')
+        # a check started as a background job of a non-interactive shell inherits SIGINT = ignored: restore the terminal default
+        _signal.signal(_signal.SIGINT, _signal.default_int_handler)
     from playback.tape_recorder import TapeRecorder
     from playback.tape_cassettes.in_memory.in_memory_tape_cassette import InMemoryTapeCassette
     from playback.studio.equalizer import Equalizer, EqualityStatus, ComparatorResult, CompareExecutionConfig
